@@ -38,7 +38,14 @@ Inductive sval :=
 | SMap (len : option N) (kvs : list (sval * sval))    (* serialize_map(len) + entries + end *)
 | SStruct (name : list byte) (len : N) (fs : list (list byte * sval))
 | SStructVariant (name : list byte) (idx : N) (variant : list byte) (len : N)
-                 (fs : list (list byte * sval)).
+                 (fs : list (list byte * sval))
+(* Serializer::collect_str(&d) for a Display value d whose fmt writes the fragments `frags`, one
+   write_str each (the idiom of Display newtypes, chrono, semver, DisplayFromStr; zlink's own
+   InterfaceDescription) *)
+| SCollectStr (frags : list (list byte))
+(* a Serialize impl that consults Serializer::is_human_readable() and issues the calls `hr` when
+   it answers true, the calls `compact` otherwise (std::net::IpAddr & co., uuid, chrono, url ..) *)
+| SHumanReadable (hr compact : sval).
 
 (* ------------------------------------------------------------------ results and the writer *)
 (* json_ser.rs:30-35 plus the one undefined-behaviour site (`unreachable_unchecked`, :1277) *)
@@ -61,6 +68,12 @@ Inductive cstate := Empty | First | Rest.
 Definition is_first (s : cstate) : bool := match s with First => true | _ => false end.
 
 Definition hint0 (len : option N) : bool := match len with Some 0 => true | _ => false end.
+
+(* Serializer::is_human_readable(): neither `impl Serializer for &mut Serializer` (json_ser.rs:
+   101-348) nor `impl Serializer for MapKeySerializer` (:603-798) overrides it, so serde's default
+   applies (serde_core-1.0.228/src/ser/mod.rs:1459-1461: `fn is_human_readable(&self) -> bool {
+   true }`): zlink's JSON serializer is human-readable, as JSON formats are. *)
+Definition human_readable : bool := true.
 
 Section Model.
 Variable avail : N.      (* output.len() *)
@@ -142,6 +155,10 @@ Fixpoint zkey (k : sval) (w : writer) : res writer :=
   | SInt _ z => w <- begin_string w;; w <- write_int w z;; end_string w   (* :645-703 *)
   | SF32 _ | SF64 _ => Err KeyMustBeAString                         (* :705-711 *)
   | SChar c => format_escaped_str w (utf8_encode c)                 (* :713 *)
+  (* no collect_str in the impl: serde's default (serde_core ser/mod.rs:1373-1378)
+     `self.serialize_str(&value.to_string())` — the fragments are first joined in a String *)
+  | SCollectStr frags => format_escaped_str w (concat frags)
+  | SHumanReadable hr compact => if human_readable then zkey hr w else zkey compact w
   | SBytes _ | SUnit | SUnitStruct _ | SNewtypeVariant _ _ _ _ | SNone | SSome _
   | SSeq _ _ | STuple _ _ | STupleStruct _ _ _ | STupleVariant _ _ _ _ _
   | SMap _ _ | SStruct _ _ _ | SStructVariant _ _ _ _ _ => Err KeyMustBeAString   (* :719-797 *)
@@ -250,6 +267,10 @@ Fixpoint zs (v : sval) (w : writer) : res writer :=
   | SStructVariant _ _ variant len fs =>                            (* :334-347 *)
       w <- variant_header variant w;;
       serialize_map (Some len) (loop (struct_field zs) struct_variant_end fs) w
+  (* no collect_str in the impl: serde's default (serde_core ser/mod.rs:1373-1378)
+     `self.serialize_str(&value.to_string())`, i.e. one String, then :193 *)
+  | SCollectStr frags => format_escaped_str w (concat frags)
+  | SHumanReadable hr compact => if human_readable then zs hr w else zs compact w
   end.
 
 (* to_slice (:19-26): the bytes buf[..n] on success *)
@@ -273,6 +294,9 @@ Definition zser (v : sval) (avail : N) : res (list byte) := zser_at avail v.
 Definition ref_byte (b : byte) : list byte := if needs_escape b then rfc_escape b else [b].
 Definition ref_string (s : list byte) : list byte := [34] ++ flat_map ref_byte s ++ [34].
 Definition quoted (t : list byte) : list byte := [34] ++ t ++ [34].
+
+(* serde_json's Serializer and MapKeySerializer do not override is_human_readable either *)
+Definition ref_human_readable : bool := true.
 
 Definition ref_null : list byte := [110; 117; 108; 108].
 Definition ref_bool (b : bool) : list byte :=
@@ -315,6 +339,9 @@ Fixpoint ref_key (k : sval) : option (list byte) :=
   | SBool b => Some (quoted (ref_bool b))
   | SF32 (FFinite tok) | SF64 (FFinite tok) => Some (quoted tok)
   | SNewtypeStruct _ x | SSome x => ref_key x
+  (* serde_json's collect_str (ser.rs:410, :1147): the Display output as one escaped string *)
+  | SCollectStr frags => Some (ref_string (concat frags))
+  | SHumanReadable hr compact => if ref_human_readable then ref_key hr else ref_key compact
   | _ => None
   end.
 
@@ -345,6 +372,8 @@ Fixpoint ref_enc (v : sval) : option (list byte) :=
   | SStructVariant _ _ variant len fs =>
       option_map (fun ms => ref_tagged variant (ref_object (hint0 (Some len)) ms))
                  (sequence (map (fun kv => ref_member (Some (ref_string (fst kv))) (ref_enc (snd kv))) fs))
+  | SCollectStr frags => Some (ref_string (concat frags))
+  | SHumanReadable hr compact => if ref_human_readable then ref_enc hr else ref_enc compact
   end.
 
 (* ================================================================== predicates used by the theorems *)
@@ -352,8 +381,9 @@ Fixpoint ref_enc (v : sval) : option (list byte) :=
 (* a key MapKeySerializer accepts: str / char / integer / unit variant / newtype struct of those *)
 Fixpoint key_ok (k : sval) : bool :=
   match k with
-  | SStr _ | SChar _ | SInt _ _ | SUnitVariant _ _ _ => true
+  | SStr _ | SChar _ | SInt _ _ | SUnitVariant _ _ _ | SCollectStr _ => true
   | SNewtypeStruct _ x => key_ok x
+  | SHumanReadable hr compact => if human_readable then key_ok hr else key_ok compact
   | _ => false
   end.
 
@@ -364,6 +394,7 @@ Fixpoint keys_ok (v : sval) : bool :=
   | SSeq _ es | STuple _ es | STupleStruct _ _ es | STupleVariant _ _ _ _ es => forallb keys_ok es
   | SMap _ kvs => forallb (fun kv => key_ok (fst kv) && keys_ok (snd kv)) kvs
   | SStruct _ _ fs | SStructVariant _ _ _ _ fs => forallb (fun kv => keys_ok (snd kv)) fs
+  | SHumanReadable hr compact => if human_readable then keys_ok hr else keys_ok compact
   | _ => true
   end.
 
@@ -379,6 +410,7 @@ Fixpoint hints_ok (v : sval) : bool :=
   | SMap len kvs => hint_ok len kvs && forallb (fun kv => hints_ok (snd kv)) kvs
   | SStruct _ len fs | SStructVariant _ _ _ len fs =>
       hint_ok (Some len) fs && forallb (fun kv => hints_ok (snd kv)) fs
+  | SHumanReadable hr compact => if human_readable then hints_ok hr else hints_ok compact
   | _ => true
   end.
 
@@ -404,6 +436,8 @@ Fixpoint sval_All (v : sval) : Prop :=
   | SStruct _ _ fs => all_of (fun kv => Ps (fst kv) /\ sval_All (snd kv)) fs
   | SStructVariant _ _ variant _ fs =>
       Ps variant /\ all_of (fun kv => Ps (fst kv) /\ sval_All (snd kv)) fs
+  | SCollectStr frags => Ps (concat frags)
+  | SHumanReadable hr compact => if human_readable then sval_All hr else sval_All compact
   | _ => True
   end.
 End Forall_sval.
